@@ -530,6 +530,9 @@ Proof.
   rewrite Hlen, Z.eqb_refl. reflexivity.
 Qed.
 
+Theorem pack_accepts ps : ps <> [] -> Forall part_ok ps -> is_ok (get_bytes ps) = true.
+Proof. intros H1 H2. destruct (pack_correct ps H1 H2) as [E _]. rewrite E. reflexivity. Qed.
+
 Lemma append_parts_rejects ps : forall s,
   Exists (fun p => width_fits (p_value p) (p_size p) = false) ps -> ~ is_ok (append_parts s ps) = true.
 Proof.
